@@ -48,7 +48,8 @@ StrWalk(b, pos, cnt) ==
 StrProj(f, start, len) ==
     LET b == FSub(f, start, len)
         w == StrWalk(b, 0, 0)
-    IN [nstr |-> w[1], walked |-> w[2], ck |-> Ck(SubSeq(b, 1, w[2])), start |-> IF w[1] > 0 THEN start ELSE 0]
+    \* the position is observable only through a non-empty string (walked > nstr: some string has bytes)
+    IN [nstr |-> w[1], walked |-> w[2], ck |-> Ck(SubSeq(b, 1, w[2])), start |-> IF w[2] > w[1] THEN start ELSE 0]
 
 \* lazy table projection at the indices the recorder chose
 TblProj(ty, class, little, b, idx) ==
